@@ -240,17 +240,27 @@ func (u *controlUnit) shouldUseForwarding(runner *risc.InstructionRunnerPc, haza
 	}
 
 	// Can we use forwarding with an instruction pushed in the previous cycle
+	// Several instructions pushed in the previous cycle may write the register:
+	// the youngest one (in program order) holds the value to forward. Picking
+	// the first one met while ranging over the map made the result depend on
+	// the map iteration order.
+	var candidate *risc.InstructionRunnerPc
+	candidateRegister := risc.Zero
 	for previousRunner := range u.pushedRunnersInPreviousCycle {
 		for _, writeRegister := range previousRunner.Runner.WriteRegisters() {
 			for _, readRegister := range runner.Runner.ReadRegisters() {
 				if readRegister == risc.Zero {
 					continue
 				}
-				if readRegister == writeRegister {
-					return true, previousRunner, readRegister
+				if readRegister == writeRegister && (candidate == nil || previousRunner.SequenceID > candidate.SequenceID) {
+					candidate = previousRunner
+					candidateRegister = readRegister
 				}
 			}
 		}
+	}
+	if candidate != nil {
+		return true, candidate, candidateRegister
 	}
 	return false, nil, risc.Zero
 }
